@@ -7,6 +7,9 @@ import Tahoe.Immutable.IntegrityBytes
         whole-file `read(consumer, 0, size)` of a k = 1 file from ONE share (number `shnum`) whose bytes are
         `share-hex`; one `get_segment` per segment, each seeing the same bytes
         → `len=<bytes written> end=<done|error|pending> data=<hex written>`
+  `dlseq <asis|fixed> <uebhash-hex> <k> <n> <size> <guess> <shnum:share-hex,…>`
+        the same read when every `get_segment` is offered all the listed shares (several servers, in order)
+        → as `dl`
   `sat <asis|fixed> <uebhash-hex> <k> <n> <size> <shnum> <segnum> <share-hex>`
         one pass of `_get_satisfaction` on a fresh node → `block` | `corrupt` | `dead:<why>` | `badsegnum` | `wait` -/
 open Tahoe.Drv Tahoe.Integrity Tahoe.IntegrityBytes Tahoe.Base.Merkle
@@ -48,6 +51,22 @@ def handle : List String → String
       let r := read realEnv cfg pick0 dec cap guess scripts (Node.init B cap) 0 size
       s!"len={r.1.length} end={showEnd r.2} data={hexOfBytes r.1}"
     | _, _, _, _, _, _, _, _ => "bad-op"
+  | ["dlseq", mode, uh, k, n, size, guess, seq] =>
+    -- every segment request is offered every share of `seq` (`shnum:hex,shnum:hex,…`), in that order
+    let parsed : Option (List (Nat × B)) := (seq.splitOn ",").mapM (fun e =>
+      match e.splitOn ":" with
+      | [a, b] => do pure ((← a.toNat?), (← bytesOfHex b))
+      | _ => none)
+    match cfgOf mode, bytesOfHex uh, k.toNat?, n.toNat?, size.toNat?, guess.toNat?, parsed with
+    | some cfg, some uh, some k, some n, some size, some guess, some shares =>
+      if k ≠ 1 then "bad-op" else
+      let cap : Cap B := { uebHash := uh, k := k, n := n, size := size }
+      let scripts : List (Script B) := (List.range (size + 2)).map (fun i =>
+        shares.filterMap (fun (shnum, sh) => (viewOf cap sh i).map (fun v => (shnum, v))))
+      let dec : Nat → List (Nat × B) → B := fun _ bl => (bl.head?.map (·.2)).getD []
+      let r := read realEnv cfg pick0 dec cap guess scripts (Node.init B cap) 0 size
+      s!"len={r.1.length} end={showEnd r.2} data={hexOfBytes r.1}"
+    | _, _, _, _, _, _, _ => "bad-op"
   | ["sat", mode, uh, k, n, size, shnum, segnum, shx] =>
     match cfgOf mode, bytesOfHex uh, k.toNat?, n.toNat?, size.toNat?, shnum.toNat?, segnum.toNat?, bytesOfHex shx with
     | some cfg, some uh, some k, some n, some size, some shnum, some segnum, some sh =>
